@@ -7,6 +7,7 @@ import RjModel.Model.Launch
 import RjModel.Model.ParseWire
 import RjModel.Model.FileRecv
 import RjModel.Model.Exe
+import RjModel.Model.ExeValid
 import RjModel.Model.ParseSettings
 import RjModel.Generated.Defaults
 import RjModel.Model.ParseDoer
@@ -122,6 +123,7 @@ def handle (line : String) : String :=
       let showO : Exe.R (Option Exe.Bytes) → String := fun
         | .ok (some x) => "ok:x" ++ hexOfBytes x | .ok none => "ok:none" | .err => "err" | .panic => "panic"
       match op, rest with
+      | "validelf", [] => if decide (Exe.ValidElf bytes nameB) then "valid" else "not-valid"
       | "extelf", [] => showO (Exe.extractElf bytes nameB)
       | "extpe", [] => showO (Exe.extractPe bytes nameB)
       | "addelf", [p] => match unxBytes p with | some pl => showB (Exe.addElf bytes nameB pl) | none => "bad-op"
